@@ -144,7 +144,7 @@ func writeFiles(dir string, files []FileSpec) error {
 		if f.Mode != 0 {
 			mode = os.FileMode(f.Mode)
 		}
-		if err := os.WriteFile(p, []byte(f.Content), mode); err != nil {
+		if err := os.WriteFile(p, f.Bytes(), mode); err != nil {
 			return err
 		}
 	}
